@@ -68,23 +68,23 @@ func GetTimeFromTicks(intervalStart uint64, intervalsPerDay, intervalTicks uint3
 	const (
 		ticksPerIntervalDivSecsPerDay float64 = 49710.269629629629629629629629629
 		nanosecond                    float64 = 1000000000
-		subnanosecond                 float64 = 100000000
 	)
 
 	fractionalSeconds := float64(intervalTicks) / (float64(intervalsPerDay) * ticksPerIntervalDivSecsPerDay)
-	subseconds := nanosecond * (fractionalSeconds - math.Floor(fractionalSeconds))
-	if subseconds >= nanosecond {
-		subseconds -= nanosecond
-		fractionalSeconds++
-	}
+	wholeSeconds := math.Floor(fractionalSeconds)
+	subseconds := nanosecond * (fractionalSeconds - wholeSeconds)
 
-	// in order to keep compatibility with the old rewriteBuffer implemented in C with some round error,
-	// fractionalSeconds should be rounded here.
-	sec = intervalStart + uint64(math.Round(fractionalSeconds*subnanosecond)/subnanosecond)
 	// round the subseconds after the decimal point to minimize the cancellation error of subseconds
 	// round( subseconds ) = (int32_t)(subseconds + 0.5)
 	const round = 0.5
 	nanosec = uint32(subseconds + round)
+	// carry into the seconds only when the rounded nanoseconds reach a full second,
+	// so that seconds and nanoseconds always describe the same instant.
+	if nanosec >= uint32(nanosecond) {
+		nanosec -= uint32(nanosecond)
+		wholeSeconds++
+	}
+	sec = intervalStart + uint64(wholeSeconds)
 
 	return sec, nanosec
 }
